@@ -1,0 +1,7 @@
+//go:build !verif
+
+package utils
+
+import "os"
+
+func verifCrash(name string, f *os.File, data []byte) {}
